@@ -49,16 +49,19 @@ Sum(acc, n, N, e) ==
     IF n >= N THEN acc
     ELSE LET w == WProd(e.weights, n, 1)
              pt == e.pts[n + 1]
-             take == FEq(pt.norm, One) /\ FLt(e.cutoff, w)
+             \* the point's own evaluation reports norm = 0 when the model declares it invalid, 1 otherwise - or
+             \* |cos dtheta| when the point carries an orientation jitter (the weight the kernel gives that direction)
+             wk == FMul(w, pt.norm)
+             take == ~FEq(pt.norm, Zero) /\ FLt(e.cutoff, wk)
              acc2 == IF take
                      THEN [F2 |-> FVecAxpy(w, pt.F2, acc.F2),
                            F1 |-> IF e.both THEN FVecAxpy(w, pt.F1, acc.F1) ELSE acc.F1,
-                           norm |-> FAdd(acc.norm, w),
+                           norm |-> FAdd(acc.norm, wk),
                            vform |-> FAdd(acc.vform, FMul(w, pt.vform)),
                            vshell |-> FAdd(acc.vshell, FMul(w, pt.vshell)),
                            reff |-> FAdd(acc.reff, FMul(w, pt.reff)),
-                           amb |-> acc.amb \/ Ambiguous(w, e.cutoff)]
-                     ELSE [acc EXCEPT !.amb = @ \/ Ambiguous(w, e.cutoff)]
+                           amb |-> acc.amb \/ Ambiguous(wk, e.cutoff)]
+                     ELSE [acc EXCEPT !.amb = @ \/ Ambiguous(wk, e.cutoff)]
          IN Sum(acc2, n + 1, N, e)
 
 NumActive(ws) == Cardinality({p \in 1..Len(ws) : Len(ws[p]) > 1})
